@@ -6,7 +6,7 @@ Local Open Scope nat_scope.
 
 Section Runs.
 Context {V L St R : Type}.
-Variable joint : list V -> L.
+Variable condf : list V -> nat -> V -> L.
 Variable point : St -> V.
 Variable reinit : nat -> (V -> L) -> St -> St.
 Variable trans : nat -> (V -> L) -> St -> R -> St.
@@ -16,17 +16,17 @@ Variable nst : nat -> nat.
 Notation ev := (@ev V L St).
 Notation gst := (@gst V St).
 Notation run := (@run V L St).
-Notation sweep := (sweep joint point reinit trans nst).
-Notation sample_n := (sample_n joint point reinit trans nst).
-Notation warmup_n := (warmup_n joint point reinit trans tune nst).
-Notation run_ops := (run_ops joint point reinit trans tune nst).
+Notation sweep := (sweep condf point reinit trans nst).
+Notation sample_n := (sample_n condf point reinit trans nst).
+Notation warmup_n := (warmup_n condf point reinit trans tune nst).
+Notation run_ops := (run_ops condf point reinit trans tune nst).
 Notation iter_trans := (iter_trans trans).
 
 Definition wf (g : gst) : Prop := length (g_ss g) = length (g_cur g).
 
 Lemma sweep_wf rs st : wf st -> wf (fst (sweep rs st)).
 Proof.
-  intros H. destruct (sweep_lengths joint point reinit trans nst rs st H) as [H1 H2].
+  intros H. destruct (sweep_lengths condf point reinit trans nst rs st H) as [H1 H2].
   unfold wf. unfold new_cur, new_ss in *. congruence.
 Qed.
 
@@ -79,6 +79,39 @@ Proof.
 Qed.
 End Invariant.
 
+(* ---------------- the target of EVERY transition of a whole run ---------------- *)
+Definition ev_conditional (e : ev) : Prop :=
+  e_tgt e = condf (e_cur e) (e_blk e) /\ e_blk e < length (e_cur e).
+
+Lemma sweep_ev_conditional rs st : wf st -> Forall (fun _ : St => True) (g_ss st) ->
+  (forall e, In e (snd (sweep rs st)) -> ev_conditional e) /\ Forall (fun _ : St => True) (g_ss (fst (sweep rs st))).
+Proof.
+  intros Hwf _. split; [|apply Forall_forall; auto].
+  intros e He. split.
+  - apply (sweep_target_is_current_conditional condf point reinit trans nst rs st Hwf e He).
+  - apply (sweep_event_valid condf point reinit trans nst rs st Hwf e He).
+Qed.
+
+Theorem run_targets rnd ops t0 x :
+  wf (r_st x) -> Forall ev_conditional (r_log x) ->
+  Forall ev_conditional (r_log (run_ops rnd ops t0 x)).
+Proof.
+  intros H1 H2.
+  apply (run_ops_inv (fun _ => True) ev_conditional sweep_ev_conditional (fun _ _ _ _ _ => I) rnd ops t0 x).
+  repeat split; auto. apply Forall_forall; auto.
+Qed.
+
+Theorem run_targets_joint (joint : list V -> L) rnd ops t0 x :
+  (forall cur i y, nth_error cur i = Some y -> forall v, condf cur i v = joint (upd cur i v)) ->
+  wf (r_st x) -> Forall ev_conditional (r_log x) ->
+  Forall (fun e => forall v, e_tgt e v = joint (upd (e_cur e) (e_blk e) v)) (r_log (run_ops rnd ops t0 x)).
+Proof.
+  intros Hc01 H1 H2. pose proof (run_targets rnd ops t0 x H1 H2) as H.
+  eapply Forall_impl; [|exact H]. intros e [E1 E2] v.
+  destruct (nth_error (e_cur e) (e_blk e)) as [y|] eqn:Ey; [|apply nth_error_None in Ey; lia].
+  rewrite E1. exact (Hc01 _ _ _ Ey v).
+Qed.
+
 (* ---------------- cached target evaluations ---------------- *)
 Section Cache.
 Variable ok : St -> Prop.                          (* the class of block samplers the statement is about *)
@@ -97,15 +130,15 @@ Lemma sweep_cache rs st : wf st -> Forall ok (g_ss st) ->
   (forall e, In e (snd (sweep rs st)) -> consistent (e_tgt e) (e_s e)) /\ Forall ok (g_ss (fst (sweep rs st))).
 Proof.
   intros Hwf Hok. split.
-  - intros e He. destruct (sweep_k_transitions joint point reinit trans nst rs st Hwf e He) as (s & Hs & _ & Hes).
+  - intros e He. destruct (sweep_k_transitions condf point reinit trans nst rs st Hwf e He) as (s & Hs & _ & Hes).
     cbn zeta in *. rewrite Hes. apply iter_ok; [apply ok_re | apply c_re];
       (eapply Forall_forall; [exact Hok | eapply nth_error_In; exact Hs]).
   - apply Forall_forall. intros s' Hin. apply In_nth_error in Hin as [i Hi].
     assert (Hlt : i < length (g_ss st)).
-    { destruct (sweep_lengths joint point reinit trans nst rs st Hwf) as [_ H2]. unfold new_ss in H2.
+    { destruct (sweep_lengths condf point reinit trans nst rs st Hwf) as [_ H2]. unfold new_ss in H2.
       rewrite Hwf, <- H2. apply nth_error_Some. congruence. }
     destruct (nth_error (g_ss st) i) as [s|] eqn:Es; [|apply nth_error_None in Es; lia].
-    destruct (sweep_result joint point reinit trans nst rs st Hwf i s Es) as [E1 _]. cbn zeta in E1.
+    destruct (sweep_result condf point reinit trans nst rs st Hwf i s Es) as [E1 _]. cbn zeta in E1.
     unfold new_ss in E1. rewrite E1 in Hi. inversion Hi; subst.
     apply iter_ok; [apply ok_re | apply c_re]; (eapply Forall_forall; [exact Hok | eapply nth_error_In; exact Es]).
 Qed.
@@ -130,7 +163,7 @@ Definition insync (g : gst) : Prop :=
 Lemma sweep_insync rs st : insync st -> insync (fst (sweep rs st)).
 Proof.
   intros [H1 H2]. split; [now apply sweep_wf|].
-  intros i s Hs. apply (sweep_keeps_synced joint point reinit trans nst rs st H1 i s Hs).
+  intros i s Hs. apply (sweep_keeps_synced condf point reinit trans nst rs st H1 i s Hs).
 Qed.
 
 Lemma nth_error_mapi_from {A B} (f : nat -> A -> B) l : forall k i,
@@ -172,10 +205,10 @@ End Runs.
 (* ---------------- legacy Gibbs: continuation ---------------- *)
 Section LegacyCont.
 Context {V L R : Type}.
-Variable joint : list V -> L.
+Variable condf : list V -> nat -> V -> L.
 Variable ltrans : nat -> (V -> L) -> V -> R -> V.
-Notation lsweeps := (lsweeps joint ltrans).
-Notation lsample := (lsample joint ltrans).
+Notation lsweeps := (lsweeps condf ltrans).
+Notation lsample := (lsample condf ltrans).
 
 Lemma last_or_app (d : list V) l l' : last_or (last_or d l) l' = last_or d (l ++ l').
 Proof.
@@ -190,7 +223,7 @@ Proof.
   induction n as [|n IH]; intros m t0 cur.
   - cbn [Nat.add C09_Gibbs.lsweeps fst snd app]. unfold last_or. cbn [rev]. rewrite Nat.add_0_r. now destruct (lsweeps rnd m t0 cur).
   - cbn [Nat.add C09_Gibbs.lsweeps fst snd]. rewrite IH. cbn [fst snd].
-    set (c1 := fst (lsweep joint ltrans (rnd t0) cur)).
+    set (c1 := fst (lsweep condf ltrans (rnd t0) cur)).
     assert (E : last_or cur (c1 :: fst (lsweeps rnd n (S t0) c1)) = last_or c1 (fst (lsweeps rnd n (S t0) c1))).
     { unfold last_or. cbn [rev]. destruct (rev (fst (lsweeps rnd n (S t0) c1))); reflexivity. }
     rewrite E. replace (t0 + S n) with (S t0 + n) by lia. rewrite <- !app_assoc. reflexivity.
@@ -222,7 +255,8 @@ Proof.
   set (s1 := lsweeps rnd ns1 (t0 + nb) cur1).
   assert (Hne : fst s1 <> []).
   { unfold s1. destruct ns1 as [|n]; [lia|]. cbn [C09_Gibbs.lsweeps fst]. discriminate. }
-  pose proof (last_col_app_nonempty [] (fst s1) Hne) as E0. cbn [app] in E0. rewrite E0. clear E0.
+  pose proof (last_col_app_nonempty [] (fst s1) Hne) as E0. cbn [app] in E0.
+  unfold l_initial. cbn [l_samples l_warm]. rewrite E0. clear E0.
   eexists _, _. split; [reflexivity|]. cbn [l_samples l_warm].
   rewrite (lsweeps_app rnd ns1 ns2 (t0 + nb) cur1). fold s1. cbn [fst snd].
   assert (E : last_or cur1 (fst s1) = last_or [] (fst s1)).
@@ -230,5 +264,25 @@ Proof.
     apply (f_equal (@rev _)) in Er. rewrite rev_involutive in Er. contradiction. }
   rewrite E. cbn [C09_Gibbs.lsweeps fst snd app]. rewrite Nat.add_0_r.
   unfold last_or at 1 3. cbn [rev]. rewrite !app_assoc. reflexivity.
+Qed.
+
+(* a call that only warms up (ns = 0) is continued from its last warm-up sweep (repo commit 2dba9ab) *)
+Theorem legacy_continuation_after_warmup rnd init0 ns2 nb t0 :
+  0 < nb ->
+  exists st1 lg1 st2 lg2 c,
+    lsample rnd init0 0 nb t0 (mkL None None) = LOk st1 lg1 /\
+    last_col (fst (lsweeps rnd nb t0 init0)) = Some c /\
+    lsample rnd init0 ns2 0 (t0 + nb) st1 = LOk st2 lg2 /\
+    l_samples st2 = Some (fst (lsweeps rnd ns2 (t0 + nb) c)) /\ lg2 = snd (lsweeps rnd ns2 (t0 + nb) c).
+Proof.
+  intros Hnb. unfold C09_Gibbs.lsample. cbn [l_initial l_samples l_warm].
+  set (w := lsweeps rnd nb t0 init0).
+  assert (Hne : fst w <> []).
+  { unfold w. destruct nb as [|n]; [lia|]. cbn [C09_Gibbs.lsweeps fst]. discriminate. }
+  pose proof (last_col_app_nonempty [] (fst w) Hne) as E0. cbn [app] in E0.
+  eexists _, _, _, _, (last_or [] (fst w)). split; [reflexivity|]. split; [exact E0|].
+  unfold l_initial. cbn [C09_Gibbs.lsweeps fst snd l_samples l_warm app last_col rev]. rewrite E0.
+  cbn [C09_Gibbs.lsweeps fst snd app]. unfold last_or at 1. cbn [rev].
+  rewrite Nat.add_0_r. split; [reflexivity|]. split; reflexivity.
 Qed.
 End LegacyCont.
